@@ -40,6 +40,7 @@ Proof.
   - left. zb. auto.
   - right. zb. auto.
 Qed.
+(* (the additional check of the gate ElasticQuotaGuaranteeUsage only rejects more) *)
 
 (* checkParentQuotaInfo *)
 Lemma parent_ok_facts s X B :
@@ -75,14 +76,14 @@ Proof. unfold tree_ok. intro H. now zb. Qed.
 (* checkSubAndParentGroupQuotaKey *)
 Lemma keys_ok_parent s X i p :
   keys_ok s X i = true -> i_parent i <> ROOT -> find (i_parent i) (infos s) = Some p ->
-  keys_same (i_max p) (i_max i) = true /\ keys_incl (i_min p) (i_min i) = true.
+  max_keys_ok (gate_keys s) (i_max p) (i_max i) = true /\ keys_incl (i_min p) (i_min i) = true.
 Proof.
   unfold keys_ok. intros H N F. zb. rwn_in N H. rewrite F in H. now zb.
 Qed.
 
 Lemma keys_ok_child s X i c ci :
   keys_ok s X i = true -> In c (children s X) -> find c (infos s) = Some ci ->
-  keys_same (i_max i) (i_max ci) = true /\ keys_incl (i_min i) (i_min ci) = true.
+  max_keys_ok (gate_keys s) (i_max i) (i_max ci) = true /\ keys_incl (i_min i) (i_min ci) = true.
 Proof.
   unfold keys_ok. intros H Hin F. zb. rewrite forallb_forall in H0.
   specialize (H0 c Hin). rewrite F in H0. now zb.
